@@ -97,10 +97,12 @@ def _shape_obligations(tier):
 
 def custom_proof(tier):
     """(a) shape obligations of run_parallel; (b) hephaestus.gen_program under its own contract (contracts/gen_program.py:
-    what the per-program record says -- verified as a second group because its ghost view of cli_args differs)"""
+    what the per-program record says -- verified as a second group because its ghost view of cli_args differs), with the
+    chain that hands the mutation's message up to the record: ProgramProcessor.inject_fault -> process_ncp_transformations"""
     out = _shape_obligations(tier)
     from pyvc import driver
-    out += driver.verify_group(['hephaestus.gen_program'], ['gen_program'])
+    out += driver.verify_group(['hephaestus.gen_program', 'hephaestus.process_ncp_transformations',
+                                'src.modules.processor.ProgramProcessor.inject_fault'], ['gen_program'])
     return out
 
 
